@@ -349,7 +349,7 @@ def _classify(R, unit, r, props):
         return
     want_loops = sum(len([k for k in s.get("loops", {}) if isinstance(k, int)]) for s in unit.get("sources", []))
     want_loops += unit.get("template_loops", 0)
-    if want_loops and unit.get("loop_contracts", True) and unit.get("mode", "dfcc") == "dfcc" and R.loop_obligations < 2 * want_loops:
+    if want_loops and unit.get("loop_contracts", True) and unit.get("mode", "dfcc") == "dfcc" and R.loop_obligations < 2 * min(want_loops, unit.get("expect_loops", want_loops if len(unit.get("sources", [])) == 1 else 1)):
         R.status, R.reason = "error", "loop contracts were dropped: %d loop obligations for %d contracted loops" % (R.loop_obligations, want_loops)
         return
     vac = [f for f in R.failed if f[1].startswith("VACUITY")]
